@@ -38,7 +38,7 @@ MachineAgrees ==
         LET cfg == Rec[run].cfg  t == Rec[run].cfg.text  n == Len(Rec[run].cfg.text)
             sa  == Rec[run].ev[1].r.sa
             p   == Rec[run].ev[idx].c.a.p
-        IN  (n <= 200 /\ Len(p) <= 40 /\ IsSortedSA(sa, t) /\ \A i \in 1..Len(p) : p[i] \in Range(cfg.alpha)) =>
+        IN  (n <= 200 /\ Len(p) <= 40 /\ IsValidSA(sa, t) /\ \A i \in 1..Len(p) : p[i] \in Range(cfg.alpha)) =>
                LET syms == Range(cfg.alpha) \cup {Sentinel(t)}
                    ix   == MkIndexOn(t, sa, cfg.k, 64, syms, syms)
                    res  == BSResult(BSRun(BSInit(n, Len(p)), p, ix))
